@@ -18,6 +18,7 @@ func init() {
 			"R1": "closed writer set and value shapes of TableState.CurrentActionEndAt; extension returns the stored value; no address escape",
 			"R2": "clear wiring: hook registered before Start; hand stores it; round-closed handler invokes it before Next; continue step resets to 0 on every path",
 			"R4": "the engine's hand-state hook (registered before Start) calls the deadline updater with each state and its event, for every event but game-closed",
+			"R6": "the state object of a live table is never replaced (only a table under construction gets one): the round-close hook and the turn writer address the same object for the whole hand, whichever of them captured it when",
 			"R5": "one delivery per state: the only send on the hand's state channel is in the hand's update function and carries the state that function has just stored as current — a state handed to the engine's hook twice re-arms the deadline of a turn that is already running",
 			"R3": "turn predicate atoms: the turn deadline is stored only under status playing ∧ round-started event ∧ betting round ∧ the current player has allowed actions ∧ has not acted (pokerface's Acted flag)",
 		},
@@ -45,6 +46,8 @@ func checkC15(c *Ctx) {
 	p := c.P
 	// R4: the deadline updater is driven by every hand state the engine receives
 	checkUpdateHook(c, "R4", "register", "deadline")
+	// R6: the state object the deadline lives in is never swapped under the running hand's hooks
+	checkStatePointerWriters(c, "R6")
 	n := 0
 	shapes := map[string]int{}
 	for _, ss := range p.FieldStores("TableState", "CurrentActionEndAt") {
